@@ -69,3 +69,41 @@ Definition c05_d16_class2 (cfg : vconfig) (st : fstep) : bool :=
 (* "no NEW payload into a zero window" outside the known class D16, for the polls that end open *)
 Definition c05_zero_window_strict_or_d16_open (cfg : vconfig) (st : fstep) : bool :=
   if post_open cfg st then c05_zero_window_strict cfg st || c05_d16_class2 cfg st else true.
+
+(* ---- the window clause as intended.  In c05_window_ok the pattern `p1 :: _ as data` binds `data` to the
+   TAIL of the list (`as` binds tighter than `::`), so that predicate leaves the first datagram of the poll
+   out of the sum; here `data` is the whole list.  Guards (assumed-and-monitored, all on the step):
+   the poll ends open, the retransmission timer had not expired at its start (no RTO part, no expired
+   probe), counter 0 and not recovering afterwards, at most 960 segments afterwards (64 restarts of the
+   poll loop may each pop one: all indices stay within the wrap tolerance of 1024), and
+   last_sent_seq_nr before the poll is at most 1024 ahead of the left edge the poll leaves. *)
+Definition c05_win_guard (cfg : vconfig) (st : fstep) : bool :=
+  let pre := fs_pre st in let post := fs_post st in
+  post_open cfg st && negb (timer_expired (f_t_retransmit pre) (fs_now st)) &&
+  (f_rto_retx post =? 0) && negb (phase_recovering (f_recovery post)) &&
+  (Z.of_nat (length (f_segs post)) <=? 960) &&
+  (0 <=? f_last_sent_seq_nr pre) && (f_last_sent_seq_nr pre <? M16) &&
+  (let d := seq_sub (wadd16 (f_last_sent_seq_nr pre) 1) (f_snd_una post) in (0 <=? d) && (d <=? 1024)).
+
+Definition c05_window_ok2 (cfg : vconfig) (st : fstep) : bool :=
+  match fs_event st, fs_result st with
+  | FePoll _, FrPoll PollPending pkts _ _ =>
+      if c05_win_guard cfg st then
+        match filter fq_is_data pkts with
+        | [] => true
+        | (p1 :: _) as data =>
+            let post := fs_post st in
+            let k := seq_sub (ch_seq (fq_hdr p1)) (f_snd_una post) in
+            let flight := fflight (firstn (Z.to_nat k) (f_segs post)) in
+            c05_window_core (f_cc_window post) (f_last_remote_window post) flight (plen_sum data)
+        end
+      else true
+  | _, _ => true
+  end.
+
+(* the predicate of Conn/C05_Pred.v under the same guards *)
+Definition c05_window_ok_g (cfg : vconfig) (st : fstep) : bool :=
+  match fs_event st, fs_result st with
+  | FePoll _, FrPoll PollPending _ _ _ => if c05_win_guard cfg st then c05_window_ok cfg st else true
+  | _, _ => true
+  end.
